@@ -6,6 +6,7 @@ package main
 
 import (
 	"bytes"
+	"strings"
 	"encoding/json"
 	"fmt"
 	"io/ioutil"
@@ -224,7 +225,43 @@ func c11Replay(args []string) error {
 	return nil
 }
 
+// dilated stretches time a hundredfold (video durations, composition offsets and the target duration) and gives the audio
+// track a timescale of about 2*10^9: sample durations stay below 2^32 but decode times pass it from the third sample on,
+// as they do in a recording of a day at 48 kHz. Sample numbers, sync points and the segment layout are unchanged.
+func dilated(c *segCase) (*segCase, bool) {
+	d := *c
+	d.D = c.D * 100
+	d.Tracks = make([]cropTrack, len(c.Tracks))
+	for t, tr := range c.Tracks {
+		k := 100
+		if tr.Kind == "audio" {
+			if tr.Ts <= 0 || tr.Ts > 1000000 {
+				return c, false
+			}
+			k = 100 * (2000000000 / tr.Ts)
+			tr.Ts = tr.Ts * (2000000000 / tr.Ts)
+		}
+		durs, ctos := make([]int, len(tr.Durs)), make([]int, len(tr.Ctos))
+		for i, v := range tr.Durs {
+			durs[i] = v * k
+			if durs[i] >= 1<<32 {
+				return c, false
+			}
+		}
+		for i, v := range tr.Ctos {
+			ctos[i] = v * k
+		}
+		tr.Durs, tr.Ctos = durs, ctos
+		d.Tracks[t] = tr
+	}
+	return &d, true
+}
+
 func c11Prog(rep *Report, c *segCase, dir, segBin, combBin string, idx int, note func(string, bool)) bool {
+	long := false
+	if idx%4 == 3 {
+		c, long = dilated(c)
+	}
 	in := buildMultiProg(c.Tracks, idx%3 == 1, false, false, false)
 	inPath := filepath.Join(dir, "in.mp4")
 	_ = ioutil.WriteFile(inPath, in, 0644)
@@ -234,7 +271,7 @@ func c11Prog(rep *Report, c *segCase, dir, segBin, combBin string, idx int, note
 		kinds[t] = fmt.Sprintf("%s n=%d sync=%v ctts=%v spc=%v", tr.Kind, len(tr.Durs), tr.Sync, len(tr.Ctos) > 0, tr.Spc)
 	}
 	for _, mode := range []string{"single", "mux", "lazy", "mux-lazy"} {
-		cs := J{"tool": "segmenter", "mode": mode, "d": c.D, "tracks": kinds}
+		cs := J{"tool": "segmenter", "mode": mode, "d": c.D, "tracks": kinds, "decode_times_beyond_2^32": long}
 		a := []string{"-d", fmt.Sprint(c.D)}
 		if mode == "mux" || mode == "mux-lazy" {
 			a = append(a, "-m")
@@ -245,8 +282,18 @@ func c11Prog(rep *Report, c *segCase, dir, segBin, combBin string, idx int, note
 		pre := "out_" + mode
 		cmd := exec.Command(segBin, append(a, inPath, pre)...)
 		cmd.Dir = dir
+		var stderr bytes.Buffer
+		cmd.Stderr = &stderr
 		if err := cmd.Run(); err != nil {
 			note("segmenter/"+mode, false)
+			if i := strings.Index(stderr.String(), "panic: runtime error"); i >= 0 {
+				msg := stderr.String()[i:]
+				if nl := strings.IndexByte(msg, '\n'); nl > 0 {
+					msg = msg[:nl]
+				}
+				rep.Violation("segmenter/"+mode+"/panic", "the segmenter crashes on a legal input: "+msg, cs)
+				continue
+			}
 			if c.Defined {
 				rep.Drift("segmenter/fails-where-defined", "segmenter exits non-zero on an input the model segments", J{"case": cs})
 			}
